@@ -82,6 +82,43 @@ def build_harness(profile="release"):
         return rc, out
 
 
+def crosscheck_tables():
+    """The translator's reading of the source against what the compiled crate itself reports (opcode bytes, names,
+    operand widths; builtin bytes and names): a check on the translator.  Returns a list of differences."""
+    try:
+        p = subprocess.run([NLH, "tables", "-"], stdout=subprocess.PIPE, stderr=subprocess.PIPE, text=True, timeout=60)
+    except Exception as e:
+        return ["harness tables: %r" % e]
+    src = open(os.path.join(COQ, "gen", "Tables.v"), encoding="utf-8").read()
+    ops = re.search(r"Definition opcode_list : list opcode := \[(.*?)\]\.", src, re.S).group(1).replace(" ", "").split(";")
+    widths = dict(re.findall(r"\| (O\w+) => \[(.*?)\]", src))
+    blt = re.search(r"Definition builtin_list : list builtin := \[(.*?)\]\.", src, re.S).group(1).replace(" ", "").split(";")
+    bnames = dict((b, n) for n, b in re.findall(r'\("(\w+)", (B\w+)\)', re.search(r"Definition builtin_names.*?\.\n", src, re.S).group(0)))
+    diffs = []
+    seen_ops = 0
+    for line in p.stdout.split("\n"):
+        f = line.split()
+        if not f:
+            continue
+        if f[0] == "opcode":
+            b, name = int(f[1]), f[2]
+            w = [x for x in (f[3].split(",") if len(f) > 3 else []) if x]
+            seen_ops += 1
+            if b >= len(ops) or ops[b] != "O" + name:
+                diffs.append("opcode byte %d is %s in the crate, %s in Tables.v" % (b, name, ops[b] if b < len(ops) else "-"))
+            else:
+                tw = [x.replace("%nat", "").strip() for x in widths.get("O" + name, "").split(";") if x.strip()]
+                if tw != w:
+                    diffs.append("operand widths of %s: crate %s, Tables.v %s" % (name, w, tw))
+        elif f[0] == "builtin":
+            b, name = int(f[1]), f[2]
+            if b >= len(blt) or bnames.get(blt[b]) != name:
+                diffs.append("builtin byte %d is %s in the crate, %s in Tables.v" % (b, name, bnames.get(blt[b]) if b < len(blt) else "-"))
+    if seen_ops != len(ops):
+        diffs.append("the crate reports %d opcodes, Tables.v has %d" % (seen_ops, len(ops)))
+    return diffs
+
+
 def nlh(cmd, lines, profile="release", timeout=600, tag="cases"):
     """Runs the harness on the given case lines; returns one observation per line.
     A crash of the harness process (abort, native stack overflow) is turned into a CRASH
